@@ -493,5 +493,5 @@ def required_labels(tier):
 
 
 def phases(tier, seed):
-    n = 24000 if tier == 'quick' else 64000
+    n = 24000 if tier == 'quick' else 600000
     return [Search('factories', st.one_of(wifi_cases(), mecard_cases(), vcard_cases(), vcard_cases(), geo_cases(), email_cases(), epc_cases(), epc_cases()), n)]
